@@ -78,7 +78,14 @@ def monitor(sc, obs):
             sig_tag = 'keyword_named_result'
         b = pyeval.own_binding(f['sig'], args, kws)
         if b is None:
-            if not (act.kind == 'X' and act.exc_class == 'TypeError') or act.bodies():
+            # the function itself rejects the call: TypeError -- unless a precondition whose own signature does accept the call
+            # (an explicit validator with a renamed first parameter) fails first; the body never starts
+            first = None
+            for v in pres:
+                r = pyeval.verdict(v, f['sig'], args, kws)
+                if r[0] != 'accept':
+                    first = configured(v, 'PreContractError') if r[0] == 'reject' else r[1]; break
+            if not (act.kind == 'X' and act.exc_class in ('TypeError', first)) or act.bodies():
                 out.append((f'call that the function itself rejects (TypeError) gave {act.outcome!r}, bodies={act.bodies()}', sig_tag))
             continue
         expect_body, expect_exc, ran = True, None, []
